@@ -79,6 +79,6 @@ def check(ctx):
     ctx.notes.append('calibration (this run): worst backward error %s (units of 1e-15, per path; guards: Roots.tla BeGuardE15 / BeGuardE6; known-finding classes excluded); worst matching distance for separated roots %d units of 1e-12*scale (guard 1e-6 = 1e6 units)' % (worst_be, worst_m))
     return ctx.finish(
         rule='cases: (i) every TLC-expanded product over multisets of small Gaussian-integer roots (f64 when the coefficients are real, Cmplx always), (ii) for every degree 1..12 '
-             'and both coefficient types ten seeded root/coefficient patterns, (iii) the input classes of D4/D8, degree 0 and the empty list, (iv) every combination of zero / real / imaginary / general coefficients in every position of degree-1..3 polynomials with magnitudes spread up to 1e6 both ways, (v) sequences of calls and mutations on one object, and refused calls (degree 0, empty, index out of range, ...) immediately followed on the same thread by ordinary calls of every degree 1..8, twice, (vi) small-integer polynomials (coefficients -3..3): products (a*x^k + b)*q(x) for k = 2..5 (real and Gaussian-integer), palindromic / anti-palindromic polynomials, polynomials in x^2 and x^3 (times a linear factor), degree 4..6; every quintic with coefficients in -3..3 (thorough; a seeded sample in quick) and a sample of the sextics - roots matched against independent reference roots (Aberth iteration + double-double Newton) when these are simple and well conditioned; each with refine = false and true. '
+             'and both coefficient types ten seeded root/coefficient patterns, (iii) the input classes of D4/D8, degree 0 and the empty list, (iv) every combination of zero / real / imaginary / general coefficients in every position of degree-1..3 polynomials with magnitudes spread up to 1e6 both ways, (v) sequences of calls and mutations on one object, and refused calls (degree 0, empty, index out of range, ...) immediately followed on the same thread by ordinary calls of every degree 1..8, twice, (vi) small-integer polynomials (coefficients -3..3): products (a*x^k + b)*q(x) for k = 2..5 (real and Gaussian-integer), palindromic / anti-palindromic polynomials, polynomials in x^2 and x^3 (times a linear factor), degree 4..6; every quintic with coefficients in -3..3 (thorough; a seeded sample in quick) and a sample of the sextics - roots matched against independent reference roots (Aberth iteration + double-double Newton) when these are simple and well conditioned; (vii) compositions p(x) = q(x^k), k = 2..4, inner q of degree 2..4 from the hard classes of the closed forms (perfect cube + constant in eight directions, Cardano axis sub-classes, quadratics with q = 0 / tiny discriminant / dominant middle coefficient, near-multiple roots) up to total degree 12, and random q up to total degree 8 (near-binomial compositions and random q(x^4) of degree 12 are instances of D10 and left out); each with refine = false and true. '
              'One event per call; distinct = distinct (class, degree, settings, measurements).',
         trusted=['harness measurements in double-double (harness/src/suites/roots.rs, dd.rs)', 'TLC', 'Roots.tla / Poly.tla'])
